@@ -47,6 +47,10 @@ func c18Handle(r *router.VerifRouter, nonce int) int {
 }
 
 func c18ShutdownRun(c string) string {
+	return c18Retry(func() string { return c18ShutdownOnce(c) })
+}
+
+func c18ShutdownOnce(c string) string {
 	c18ServersSetup()
 	m := kv(c)
 	items := c18ParseItems(m["it"])
@@ -77,14 +81,24 @@ func c18ShutdownRun(c string) string {
 	}()
 
 	base := c18Baseline()
-	b := c18Build(items, c18List(m["srv"]), []string{upKind}, 0, func(int, string) string { return s.addr[upKind] })
-	defer b.cleanup()
+	var b *c18built
 	var r *router.VerifRouter
 	var err error
-	res := c18Call(c18CallMax, func() { r, err = router.VerifRun(b.cfg) })
-	if res == "ok" && err != nil {
-		res = "err"
+	var res string
+	for try := 0; try < 4; try++ {
+		b = c18Build(items, c18List(m["srv"]), []string{upKind}, 0, func(int, string) string { return s.addr[upKind] })
+		res = c18Call(c18CallMax, func() { r, err = router.VerifRun(b.cfg) })
+		if res == "ok" && err != nil {
+			res = "err"
+		}
+		// another process of this machine grabbed one of the ports in the meantime: noise, try other ports
+		if res == "err" && strings.Contains(err.Error(), "address already in use") {
+			b.cleanup()
+			continue
+		}
+		break
 	}
+	defer b.cleanup()
 	if res != "ok" {
 		d := ""
 		if err != nil {
@@ -113,9 +127,9 @@ func c18ShutdownRun(c string) string {
 	warm := "-"
 	if m["warm"] == "1" {
 		cl := handle(nbase)
-		c18Until(c18Settle, func() bool { return finished(cl) || s.seen(nbase) })
+		c18Wait(func() bool { return finished(cl) || s.seen(nbase) })
 		s.release(nbase)
-		if !c18Until(c18Settle, func() bool { return finished(cl) }) {
+		if !c18Wait(func() bool { return finished(cl) }) {
 			warm = "hang"
 		} else if cl.rc == 0 {
 			warm = "ok"
@@ -129,7 +143,7 @@ func c18ShutdownRun(c string) string {
 		cl := handle(nbase + i)
 		infl = append(infl, cl)
 		nonce := nbase + i
-		c18Until(c18Settle, func() bool { return finished(cl) || s.seen(nonce) })
+		c18Wait(func() bool { return finished(cl) || s.seen(nonce) })
 	}
 	closes, clRes := 0, ""
 	for i := 0; i < 2; i++ {
@@ -141,7 +155,7 @@ func c18ShutdownRun(c string) string {
 	}
 	inflRes := "fail"
 	for _, cl := range infl {
-		if !c18Until(c18Settle, func() bool { return finished(cl) }) {
+		if !c18Wait(func() bool { return finished(cl) }) {
 			inflRes = "hang"
 			break
 		}
@@ -152,7 +166,7 @@ func c18ShutdownRun(c string) string {
 	after := "fail"
 	t0 := time.Now()
 	cl := handle(nbase + n + 1)
-	if !c18Until(c18Settle, func() bool { return finished(cl) }) {
+	if !c18Wait(func() bool { return finished(cl) }) {
 		after = "hang"
 		s.release(nbase + n + 1)
 	} else if cl.rc != 2 {
